@@ -81,6 +81,10 @@ def meta_of(f):
         except Exception:
             ok = False
     m['ok'] = bool(ok)
+    # an object of the IOAPI wrapper classes (ioapi_base and its subclasses:
+    # ioapi, griddesc, ...)
+    from PseudoNetCDF.cmaqfiles._ioapi import ioapi_base as _base
+    m['isioapi'] = isinstance(f, _base)
     m['times'] = []
     m['times_ok'] = True
     try:
@@ -132,6 +136,25 @@ def template(tid, tmp=None):
                            NCOLS=3, NROWS=2, NTHIK=1, XORIG=0., YORIG=0.,
                            XCELL=1000., YCELL=1000.,
                            VGLVLS=np.array([1, .75, .25], 'f'), VGTOP=5000.))
+    if tid == 'I6':   # built from GRIDDESC text, with the CF variables
+        from PseudoNetCDF.cmaqfiles import griddesc
+        txt = ("""' '
+'LCC'
+  2        33.000        45.000       -97.000       -97.000        40.000
+' '
+'VERIF'
+'LCC'   -108000.000    -60000.000     12000.000      4000.000   4   3   1
+' '
+""")
+        f = griddesc(txt, GDNAM='VERIF',
+                     VGLVLS=np.array([1, .9, .65, .3], 'f'), SDATE=2011365,
+                     STIME=220000, TSTEP=10000, nsteps=3,
+                     var_kwds={'O3': {'units': 'ppb'},
+                               'NO2': {'units': 'ppb'}})
+        a = np.arange(3 * 3 * 3 * 4, dtype='f').reshape(3, 3, 3, 4)
+        f.variables['O3'][...] = a + 100
+        f.variables['NO2'][...] = a + 200
+        return f
     if tid == 'I5':   # read from disk
         from PseudoNetCDF.cmaqfiles import ioapi
         p = os.path.join(tmp, 'i5_%d.nc' % os.getpid())
@@ -142,7 +165,7 @@ def template(tid, tmp=None):
     raise ValueError(tid)
 
 
-TEMPLATES = ['I1', 'I2', 'I3', 'I4', 'I5']
+TEMPLATES = ['I1', 'I2', 'I3', 'I4', 'I5', 'I6']
 
 
 def call(objs, st, tmp):
